@@ -1015,12 +1015,16 @@ impl Eq for RelayConnectionState {}
 #[derive(Debug, Clone)]
 pub(crate) struct HomeRelayWatch {
     inner: Watchable<Option<RelayStatus>>,
+    /// Serialises the writers.  [`Self::set_status`] is a read-compare-write on `inner`,
+    /// which must not interleave with [`Self::set`] or [`Self::clear`].
+    writers: Arc<std::sync::Mutex<()>>,
 }
 
 impl Default for HomeRelayWatch {
     fn default() -> Self {
         Self {
             inner: Watchable::new(None),
+            writers: Default::default(),
         }
     }
 }
@@ -1028,11 +1032,13 @@ impl Default for HomeRelayWatch {
 impl HomeRelayWatch {
     /// Set the home relay URL and status. Used by [`RelayActor`] on relay changes.
     fn set(&self, url: RelayUrl, state: RelayConnectionState) {
+        let _guard = self.writers.lock().expect("poisoned");
         let _ = self.inner.set(Some(RelayStatus::new(url, state)));
     }
 
     /// Clear the home relay (no preferred relay). Used by [`RelayActor`].
     fn clear(&self) {
+        let _guard = self.writers.lock().expect("poisoned");
         let _ = self.inner.set(None);
     }
 
@@ -1043,6 +1049,9 @@ impl HomeRelayWatch {
     /// updates the URL in the watchable *before* sending `SetHomeRelay(false)`, so by
     /// the time the old actor tries to write, the URL no longer matches.
     fn set_status(&self, url: &RelayUrl, state: RelayConnectionState) {
+        // Held across the comparison and the write: otherwise a new home relay published in
+        // between would be overwritten by this (now stale) status.
+        let _guard = self.writers.lock().expect("poisoned");
         if self.inner.get().as_ref().map(RelayStatus::url) == Some(url) {
             let _ = self.inner.set(Some(RelayStatus::new(url.clone(), state)));
         }
